@@ -115,6 +115,7 @@ func init() {
 		item{Name: "start(no-run-id)", Bytes: ws("", "s", "success")},
 		item{Name: "start(r3,no-step-id)", Bytes: ws("r3", "", "success")},
 		item{Name: "start(r1,config=42)", Bytes: rt(atp.MessageTypeWorkStart, "r1", atp.WorkStartMessage{StepID: "s", Config: int64(42)}), Run: "r1"},
+		item{Name: "start(r1,rejected-input)", Bytes: rt(atp.MessageTypeWorkStart, "r1", atp.WorkStartMessage{StepID: "s", Config: map[string]any{"mode": []any{int64(1), int64(2)}}}), Run: "r1"},
 		item{Name: "start(r1,data=string)", Bytes: rt(atp.MessageTypeWorkStart, "r1", "not a work start"), MayAnswer: "r1"},
 		item{Name: "signal(r1,sig)", Bytes: sg("r1", "sig", map[string]any{"mode": "x"})},
 		item{Name: "signal(r1,unknown-signal)", Bytes: sg("r1", "nosuch", map[string]any{"mode": "x"})},
@@ -460,7 +461,7 @@ func main() {
 			}
 			return 150 * time.Second
 		},
-		Rule: fmt.Sprintf("client scripts = handshake + every sequence of N messages over an alphabet of %d valid/invalid items (work-starts with 7 step behaviours, duplicate/unknown/empty ids, wrongly typed payloads, 7 signal variants, unknown message id, client-done, malformed CBOR, wrong envelope), optionally cut at every byte offset, then end of input; for each script every thread schedule within the delay bound; distinct = (shape, outcome) pairs", len(alphabet)),
+		Rule: fmt.Sprintf("client scripts = handshake + every sequence of N messages over an alphabet of %d valid/invalid items (work-starts with 7 step behaviours and an input the step's schema rejects, duplicate/unknown/empty ids, wrongly typed payloads, 7 signal variants, unknown message id, client-done, malformed CBOR, wrong envelope), optionally cut at every byte offset, then end of input; for each script every thread schedule within the delay bound; distinct = (shape, outcome) pairs", len(alphabet)),
 		Assumptions: []string{
 			"the client's input always ends (the property's 'once input has ended')",
 			"server output is drained by the client until the server returns; output-failure scripts only check no-panic/no-deadlock/returns",
